@@ -517,6 +517,7 @@ func c19Run(c *core.Ctx, idx int) {
 			})
 			w := c19Witness{Engine: kind, Fault: fault, FaultAt: k, List: lines, History: hist}
 			faulted := false
+			seenNet, seenV4, seenV6 := map[string][]string{}, map[string][]string{}, map[string][]string{}
 			for i, q := range hist {
 				if i == k {
 					if k > 0 && c.Rng.Intn(3) == 0 {
@@ -558,10 +559,34 @@ func c19Run(c *core.Ctx, idx int) {
 					if !util.EqualStrings(got, oracleNet[i]) {
 						report("fault-free-answer-differs", "answer before the fault differs from the String-backed twin", got, oracleNet[i])
 					}
+					// What this query was answered with before the fault (observed
+					// at the interface, not through the hooks).
+					seenNet[q.Key()] = got
+					if kind == "dns" {
+						seenV4[q.Key()], seenV6[q.Key()] = c19HostSet(a.V4), c19HostSet(a.V6)
+					}
 
 					continue
 				}
 				c.Event("queries_after_fault", 1)
+				// Lower bound at the interface: a query that was answered before
+				// the fault is answered from the same places again, and every rule
+				// it was answered with then has been retrieved, so all of them
+				// are still returned.
+				if prev, asked := seenNet[q.Key()]; asked {
+					c.Event("queries_repeated_after_the_fault", 1)
+					if lost := util.Diff(prev, got); len(lost) > 0 {
+						report("rule-returned-before-the-fault-lost", "rules this very query returned before the fault are no longer returned", got, prev)
+					}
+					if kind == "dns" {
+						g4, g6 := c19HostSet(a.V4), c19HostSet(a.V6)
+						// (host rules are consulted only when no basic rule is found,
+						// which does not change: the network rules are all still there)
+						if lost := append(util.Diff(seenV4[q.Key()], g4), util.Diff(seenV6[q.Key()], g6)...); len(lost) > 0 {
+							report("host-rule-returned-before-the-fault-lost", "host rules this very query returned before the fault are no longer returned", append(g4, g6...), append(append([]string(nil), seenV4[q.Key()]...), seenV6[q.Key()]...))
+						}
+					}
+				}
 				// Upper bound: a subset of the fault-free result, each returned
 				// rule truly matches.
 				if extra := util.Diff(got, oracleNet[i]); len(extra) > 0 {
@@ -634,7 +659,7 @@ func init() {
 	core.Register(&core.Prop{
 		ID:    "C19",
 		Level: "fault_enumeration",
-		Rule: "per case one file-backed list (DNS: rules + hosts lines over colliding names; network: a pool mixing all index paths) and one query history of 10..30 (thorough 10..60) queries drawn with repeats from 8 distinct requests; in half of the cases the list is padded beyond the 4 KiB read block so that a rule straddles a block boundary exactly where its prefix is a valid broader rule matching a request of the history; for EVERY fault point k in 0..n and every fault kind in {RuleStorage.Close, file handle replaced by an already closed descriptor, by a directory descriptor (Seek succeeds, reads fail with EISDIR), by the read end of a closed pipe (Seek fails with ESPIPE), by an already closed descriptor of ANOTHER file that holds different matching rules at the same offsets, RuleStorage.Close followed by opening that other file four times (descriptor numbers are recycled)} the engine is rebuilt, queries before k must equal a String-backed twin, queries from k on must not panic, must return a subset of the fault-free result whose members individually match, and must still return every rule materialised before k (tracked from storage.insert hook events, cross-checked with GetCacheSize); " +
+		Rule: "per case one file-backed list (DNS: rules + hosts lines over colliding names; network: a pool mixing all index paths) and one query history of 10..30 (thorough 10..60) queries drawn with repeats from 8 distinct requests; in half of the cases the list is padded beyond the 4 KiB read block so that a rule straddles a block boundary exactly where its prefix is a valid broader rule matching a request of the history; for EVERY fault point k in 0..n and every fault kind in {RuleStorage.Close, file handle replaced by an already closed descriptor, by a directory descriptor (Seek succeeds, reads fail with EISDIR), by the read end of a closed pipe (Seek fails with ESPIPE), by an already closed descriptor of ANOTHER file that holds different matching rules at the same offsets, RuleStorage.Close followed by opening that other file four times (descriptor numbers are recycled)} the engine is rebuilt, queries before k must equal a String-backed twin, queries from k on must not panic, must return a subset of the fault-free result whose members individually match, must still return every rule materialised before k (tracked from storage.insert hook events, cross-checked with GetCacheSize), and a query repeated after the fault must still return every network and host rule it returned before it (observed at the interface); " +
 			"each case under one of four logger configurations of log/slog (default, text or JSON at debug level, above error); " +
 			"cases 2 and 3 pause 5.5 s (thorough: case 4 pauses 61 s) of real time before one fault point per fault kind; " +
 			"plus one case that materialises 9 000 (thorough 70 000) rules before each kind of fault and demands all of them afterwards; non-trivial = every (list, history) pair, each contributing 6*(n+1) fault placements; distinct by list and history length",
